@@ -171,6 +171,10 @@ func init() {
 	add(here("<<-", "E", ast.Word{wLit("E")}, "E", "\tx\n", false))
 	add(here("<<", "'E'", ast.Word{wSQ("E")}, "E", "$v\n", true))
 	add(here("<<", "F", ast.Word{wLit("F")}, "F", "", false))
+	// a body that holds an unterminated expansion: ill-formed under an unquoted delimiter, literal text under a quoted one
+	add(here("<<", "G", ast.Word{wLit("G")}, "G", "${v\n", false))
+	add(here("<<", "'G'", ast.Word{wSQ("G")}, "G", "${v\n", true))
+	add(here("<<", "H", ast.Word{wLit("H")}, "H", "a`b\n", false))
 	h3 := here("<<", "E", ast.Word{wLit("E")}, "E", "x\n", false)
 	h3.text, h3.num = "3<<E", "3"
 	add(h3)
